@@ -41,6 +41,29 @@ MCCat == <<
                <<[nil |-> FALSE, e |-> <<[nil |-> FALSE, b |-> <<1>>], [nil |-> TRUE, b |-> <<>>], [nil |-> FALSE, b |-> <<2, 3>>]>>],
                  [nil |-> FALSE, v |-> [nil |-> TRUE, b |-> <<>>]], <<116, 97, 105, 108>>>> >>, cfg |-> "default"]
 >>
+\* ---- C19: interned string fields, their plain twins, null.String, two interned fields in one struct ----
+Hat == <<104, 97, 116>>
+CatS == <<99, 97, 116>>
+Hatter == <<104, 97, 116, 116, 101, 114>>
+NB(b) == IF b = <<>> THEN [nil |-> TRUE, b |-> <<>>] ELSE [nil |-> FALSE, b |-> b]
+SV == <<<<>>, Hat, CatS, Hatter, <<0, 255>>, Rep(128, 113), Rep(70, 105)>>
+X1 == St(<<F("S", 1, "intern", StrT), F("N", 2, "", BytT)>>)
+X2 == St(<<F("S", 1, "", StrT), F("N", 2, "", BytT)>>)
+XVals == [j \in 1..Len(SV) |-> <<SV[j], NB(IF j % 2 = 0 THEN <<7>> ELSE <<>>)>>]
+NS(valid, b) == [valid |-> valid, v |-> b]
+X3 == St(<<F("S", 1, "intern", [k |-> "null", of |-> "string"]), F("Z", 2, "", IntT)>>)
+X3Vals == << <<NS(FALSE, <<>>), I(0)>>, <<NS(TRUE, <<>>), I(1)>>, <<NS(TRUE, Hat), I(0)>>, <<NS(TRUE, CatS), I(2)>> >>
+X4 == St(<<F("A", 1, "intern", StrT), F("B", 2, "intern", StrT)>>)
+X4Vals == << <<<<>>, <<>>>>, <<Hat, CatS>>, <<CatS, Hat>>, <<Hat, Hat>> >>
+X5 == [k |-> "slice", e |-> X1]
+X5Vals == << [nil |-> TRUE, e |-> <<>>], [nil |-> FALSE, e |-> <<XVals[2], XVals[3], XVals[2], XVals[1]>>] >>
+MCCat19 == << [T |-> X1, vals |-> XVals, cfg |-> "default"], [T |-> X2, vals |-> XVals, cfg |-> "default"],
+              [T |-> X3, vals |-> X3Vals, cfg |-> "default"], [T |-> X4, vals |-> X4Vals, cfg |-> "default"],
+              [T |-> X5, vals |-> X5Vals, cfg |-> "default"] >>
+\* the option changes neither the encoding nor what is decoded (the model has no interning at all: that is the specification)
+InternTransparent == \A j \in 1..Len(XVals) : Encode(Cfg0, Bake(X1, ""), XVals[j]) = Encode(Cfg0, Bake(X2, ""), XVals[j])
+Quick19 == {1, 3, 4}
+
 \* ---- C17: the same types used through instances with different options and registrations ----
 MkT == [k |-> "marked"]
 TA == St(<<F("A", 1, "", MkT), F("P", 2, "", [k |-> "ptr", e |-> MkT]), F("S", 3, "", [k |-> "slice", e |-> MkT]),
